@@ -520,6 +520,10 @@ class BinaryProperty(Property):
             base64.b64decode(value, validate=True)
         except (binascii.Error, TypeError):
             raise ValueError("must contain a base64 encoded string")
+        if isinstance(value, (bytes, bytearray)):
+            # the property is the text; kept as bytes it would be written as
+            # that text but not be equal to what is read back
+            value = bytes(value).decode("ascii")
         return value, False
 
 
